@@ -12,4 +12,10 @@ CHECKS = {
  'C05': _c('C05', 'For every table of <=3 (thorough 4) tagged rows with symbolic keys (int / None / mixed / compound / whole-row / ragged), every buffersize in {None,1..n+1}, reverse, cache and two passes, the solver explores all paths of sort()/mergesort() and the oracle checks permutation, order under an independent reference order, and stability.'),
  'C06': _c('C06', 'For all pairs of tables within the shape bound (2x2 quick, 3x3 thorough) with symbolic keys, every merge-join operator is checked pair-by-pair against the relational definition (matched pairs, padded unmatched rows, multiplicities, header, key order).'),
 }
+CHECKS.update({
+ 'C07': _c('C07', 'Hash joins are checked against the same relational definition as the merge joins (plus a differential run of the real merge join), with the cache flag and pass number symbolic and emission order of the streamed side; lookup functions are checked key by key against table order, *one = first, strict raises iff a key repeats.'),
+ 'C08': _c('C08', 'complement/intersection/diff/record*/hash* are checked against list-based multiset arithmetic for all pairs of small tables over small cell domains (every equality pattern realisable), strict symbolic; complement + intersection reassemble a.'),
+ 'C09': _c('C09', 'Every grouping operator is checked on tagged rows: one output group per distinct key, ascending key order, members exactly the rows with that key in input order, aggregation value = len/sum/list of those members; counts/sums conserved; selections are members and first/last/min/max.'),
+ 'C10': _c('C10', 'duplicates/unique partition by key multiplicity (tags), distinct keeps the first row of each key and counts add to nrows, conflicts is sound (only rows of disagreeing duplicate groups), isunique iff duplicates empty; whole-row keys via multisets.'),
+})
 NOT_APPLICABLE = {}
